@@ -422,7 +422,7 @@ pub fn families(tier: Tier) -> Vec<Family> {
         Family { menu: Menu::General, k: tier.pick(3, 4) },
         Family { menu: Menu::Abstract, k: tier.pick(3, 4) },
         Family { menu: Menu::Args, k: tier.pick(2, 3) },
-        Family { menu: Menu::ClientArgs, k: tier.pick(2, 3) },
+        Family { menu: Menu::ClientArgs, k: tier.pick(3, 4) },
         Family { menu: Menu::Pointers, k: tier.pick(2, 3) },
         Family { menu: Menu::Overlap, k: tier.pick(2, 3) },
         Family { menu: Menu::Cycles, k: tier.pick(1, 2) },
